@@ -122,7 +122,7 @@ func GenParam(r *core.Rand) ProgParam {
 			{Kind: "[]*T", Lit: "nil", Words: 3},
 			{Kind: "*[]int", Lit: "nil", Words: 1},
 			{Kind: "map[string][]int", Lit: "nil", Words: 1},
-			{Kind: "<-chan int", Lit: "gChan", Words: 1},
+			{Kind: "struct{ c <-chan int }", Lit: "struct{ c <-chan int }{gChan}", Words: 1},
 		}[r.Intn(11)]
 		u.Unsupported = true
 		return u
@@ -138,6 +138,9 @@ func GenParam(r *core.Rand) ProgParam {
 		v := []float32{0, 1.5, -2.25, 1e30, 123456.79, 3.4028235e38, -0.1}[r.Intn(7)]
 		return ProgParam{Kind: "float32", Lit: strconv.FormatFloat(float64(v), 'g', -1, 32), Words: 1, IsFloat: true, Float: float64(v)}
 	case 3:
+		if r.Chance(1, 8) {
+			return ProgParam{Kind: "string", Lit: "gBigStr", Words: 2, WantTag: "string", Len: 600000}
+		}
 		s := []string{"", "hello", "a longer string with spaces", "ünï"}[r.Intn(4)]
 		return ProgParam{Kind: "string", Lit: strconv.Quote(s), Words: 2, WantTag: "string", Len: len(s)}
 	case 4:
@@ -149,6 +152,10 @@ func GenParam(r *core.Rand) ProgParam {
 		case 2:
 			return ProgParam{Kind: "[]byte", Lit: "nil", Words: 3, WantTag: "[]byte", Len: 0, Cap: 0, Nil: true}
 		default:
+			if r.Chance(1, 3) {
+				// length and capacity above the pointer-classification floor
+				return ProgParam{Kind: "[]byte", Lit: "gBig", Words: 3, WantTag: "[]byte", Len: 1 << 20, Cap: 1 << 20}
+			}
 			return ProgParam{Kind: "[]T", Lit: "gSliceT", Words: 3, WantTag: "[]T", Len: 4, Cap: 9}
 		}
 	case 5:
@@ -162,7 +169,8 @@ func GenParam(r *core.Rand) ProgParam {
 		}
 		return ProgParam{Kind: "map[string]int", Lit: "nil", Words: 1, WantTag: "map[string]int", Nil: true}
 	case 7:
-		return ProgParam{Kind: "chan int", Lit: "gChan", Words: 1, WantTag: "chan int"}
+		// a channel of either direction is one word rendered as a channel
+		return ProgParam{Kind: []string{"chan int", "<-chan int", "chan<- int"}[r.Intn(3)], Lit: "gChan", Words: 1, WantTag: "chan int"}
 	case 8:
 		return ProgParam{Kind: "func()", Lit: "gFunc", Words: 1, WantTag: "func"}
 	default:
@@ -254,6 +262,8 @@ func GenProgFiles(r *core.Rand, n int, twoFiles bool) *Prog {
 	w("\tgSliceT = make([]T, 4, 9)")
 	w("\tgT      = &T{1, 2}")
 	w("\tgU      = &U{\"u\"}")
+	w("\tgBig    = make([]byte, 1<<20)")
+	w("\tgBigStr = string(make([]byte, 600000))")
 	w(")")
 	w("")
 	if twoFiles {
